@@ -486,9 +486,19 @@ def run(ctx: Ctx):
         c, o = tcases[tidx[j]], touts[tidx[j]]
         ctx.report(f"Model/TreeAssign.v and implementation differ (oracle silent): {ta.render_tree(c['tree'])} observed {c['new']!r} flags {c['flags']} -> {o['arg']}",
                    {"kind": "tree", "case": dict(c, new_repr=repr(c["new"])), "source": o["source"]}, no_input=True, kind="correspondence")
+    # constructor calls whose arguments hold Is(...) parts (also as a whole keyword argument) vs Model/CallAssign.v
+    from .. import callassign as ca
+    ca.UNM_CHOICES[0] = [0.3, 0.5]
+    try:
+        ca.check_part(ctx, 200 if not ctx.thorough else 3000, "C10", positional=False)
+    finally:
+        ca.UNM_CHOICES[0] = [0, 0, 0.25]
 
 
 def replay(ctx: Ctx, data):
+    if isinstance(data.get("case"), dict) and data["case"].get("kind") == "call":
+        from .. import callassign as ca
+        return ca.replay_case(data["case"])
     c = data["case"]
     if c.get("kind") == "case":
         case = dict(c["case"], source=c["source"], flags=tuple(c["flags"]))
